@@ -614,6 +614,13 @@ impl LoopClient {
     pub fn drop_handle(&mut self, ch: u16) {
         self.handles.remove(&ch);
     }
+    /// make the socket ready now (the probe does it anyway after the callback): decides where
+    /// among the sends of this callback the socket's event is queued for the next batch
+    pub fn kick(&self) {
+        let _ = self
+            .kick
+            .set_readiness(Ready::readable() | Ready::writable());
+    }
     /// what the transport does with the next write calls (then: would block)
     pub fn script_writes(&mut self, w: Vec<Wr>) {
         self.shared.lock().unwrap().writes = w.into_iter().collect();
